@@ -221,6 +221,8 @@ Definition to_surface (c : cfg) (m : mesh) (surf : list (nat * list (list nat)))
   | None => None
   | Some groups =>
       let el := renumber groups in
+      (* no facet at all: building the empty attribute raises *)
+      if Nat.eqb (length (flat_map snd surf)) 0 then None else
       if negb remove then
         Some {| nodes := nodes m; elems := el; nodal := nodal m; elemental := [] |}
       else
